@@ -37,10 +37,15 @@ RULE = ("index level: every column count 1..4N+1 x rows 1..3 x all 16 (lhs,rhs) 
         "values (1 ulp(float) and 1 ulp(double) around integers and .5 up to 2^53+2 and 1e15, inside float epsilon of integers, "
         "denormals, +-0, +-inf, NaN, +-1e300, float overflow) and every binary op on 50 operand pairs whose float-narrowed images differ "
         "from the doubles / cancel / overflow / underflow; covering windows put each value in a packed lane AND in a tail position "
-        "(quick), thorough adds every size 1..4N+1 with random offsets; order shuffled by VERIF_SEED. non-trivial = more than N elements or a 2-d+ shape; distinct = distinct case lines")
+        "(quick), thorough adds every size 1..4N+1 with random offsets; order shuffled by VERIF_SEED. Layout stream (lay): operand "
+        "layout x result layout (row / column-major ndarray operands incl. mixed, Row/ColumnMajorResolver) for unary, binary same-shape, "
+        "both 2-d broadcast arms, reductions over every axis (keepdims on/off) and outer, 2-d / 3-d shapes whose size is and is not a "
+        "multiple of the lanes, every context x dtype, compared by logical index. The relu/relu6 class is decided against the model's "
+        "exact per-context lane prediction (impl must equal it bit for bit). non-trivial = more than N elements or a 2-d+ shape; distinct = distinct case lines")
 THEOREM_STATUS = {"proved": ["C12_unary_eq_map", "C12_binary_same_eq", "C12_binary_2d_covers_once", "C12_binary_2d_eq_on_domain",
                              "C12_no_UB", "C12_reduce_full_on_domain", "C12_reduce_horizontal_core", "C12_reduce_vertical_core",
-                             "C12_binary_refused_falls_back", "C12_not_row_major_falls_back"],
+                             "C12_binary_refused_falls_back", "C12_not_row_major_falls_back", "C12_unary_lane_eq_map",
+                             "C12_relu_x86_lane_is_scalar"],
                   "partial": ["reduction_nd_reshape (n-d -> 2-d; the 2-d cores are proved) and eval_outer: modelled and corresponded on every run, "
                               "not proved", "lane operations of the six contexts: modelled as N-lane maps of f, not verified"],
                   "refuted": []}
